@@ -73,7 +73,7 @@ class TexttableCompuMethod(CompuMethod):
         if len(matching_scales) == 0:
             if self._compu_internal_default_value is None:
                 odxraise(f"Texttable could not encode {physical_value!r}.", EncodeError)
-                return cast(None, AtomicOdxType)
+                return cast(AtomicOdxType, None)
 
             return self._compu_internal_default_value
         elif len(matching_scales) > 1:
@@ -99,7 +99,7 @@ class TexttableCompuMethod(CompuMethod):
         if len(matching_scales) == 0:
             if self._compu_physical_default_value is None:
                 odxraise(f"Texttable could not decode {internal_value!r}.", DecodeError)
-                return cast(None, AtomicOdxType)
+                return cast(AtomicOdxType, None)
 
             return self._compu_physical_default_value
 
@@ -110,7 +110,7 @@ class TexttableCompuMethod(CompuMethod):
 
         if scale.compu_const is None:
             odxraise(f"Encountered a COMPU-SCALE with no COMPU-CONST.")
-            return cast(None, AtomicOdxType)
+            return cast(AtomicOdxType, None)
 
         if scale.compu_const.value is not None:
             return scale.compu_const.value
